@@ -265,7 +265,8 @@ class Bot:
         self._rhythm.return_to_mainloop()
 
         # Pylint doesn't seem to understand "Row" is a list here
-        treble = self._rounds[0]  # pylint: disable=unsubscriptable-object
+        # (the bell that leads the opening row, which is not bell 1 for every custom start row)
+        treble = self._opening_row[0]  # pylint: disable=unsubscriptable-object
 
         # Count number of user controlled bells
         number_of_user_controlled_bells = sum(
